@@ -36,7 +36,7 @@ def insertKw (kw : Kwargs) (k : String) (v : Val) : Kwargs :=
 def applyNode (P : Program) (n : Node) (kw : Kwargs) (inv : Nat) : Res :=
   match (Retry.run (P.cfg n) (fun k => P.body n kw inv k)).2 with
   | some (.value v) => .ok v
-  | some .default => .ok (P.dflt n kw)
+  | some .default => (match P.dfltRaise n with | some e => .fail [e] | none => .ok (P.dflt n kw))
   | some (.failed e) => .fail [e]
   | none => .fail [⟨"Other:fuel", n, 0, 0⟩]
 
@@ -130,7 +130,7 @@ def eval (P : Program) : Nat → Node → SemSt → Res × SemSt
               if (P.cfg n).useDefault then
                 -- default of the destination, on the arguments of its last invocation
                 let kw : Kwargs := ((st.calls.filter (fun (x : Node × Nat × Kwargs) => x.1 == n)).getLast?.map (fun x => x.2.2)).getD []
-                (.ok (P.dflt n kw), st)
+                ((match P.dfltRaise n with | some e => .fail [e] | none => .ok (P.dflt n kw)), st)
               else (.fail [⟨"RecNoResult", n, 0, 0⟩], st)
             | r => (r, st)
       (r, { st with memo := upd st.memo n (some r) })
